@@ -203,7 +203,10 @@ def reshape_cases(max_axes: int, max_len: int, zero_axes: int):
             by_size.setdefault(0, []).append(s)
     for size, shapes in sorted(by_size.items()):
         for old, new in itertools.product(shapes, shapes):
-            for order in ("C", "F"):
+            # (NumPy and pytato's validation take the order letter case-
+            # insensitively; lower case on the smaller shapes only)
+            small = size <= 12
+            for order in (("C", "F", "c", "f") if small else ("C", "F")):
                 yield {"nodes": [_input(old),
                                  {"op": "reshape", "args": [["n", 0]],
                                   "p": {"shape": list(new), "order": order}}],
